@@ -10,6 +10,7 @@ use super::*;
 use vstd::prelude::*;
 use vstd::string::*;
 use crate::escfn_::*;
+use crate::ctor_::axiom_into_self_cow;
 use core::result::Result;
 /// src/events/attributes.rs: `use crate::errors::Result as XmlResult;`
 pub type XmlResult<T> = Result<T, Error>;
@@ -180,6 +181,81 @@ impl<'a> Attribute<'a> {
             { resolve_predefined_entity(e) }; let r = self.unescape_value_with(f);
           proof { lemma_value_xml(Decoder::spec_utf8(), self.value@, f, r); }
           r }
+    }
+//@end
+}
+pub axiom fn axiom_cow_mut_bytes_ev()
+    ensures forall|c: &Cow<'_, [u8]>| (#[trigger] cow_target(c))@ == c@;
+// ---- a CDATA section turned into an (escaped) text event: BytesCData::escape / partial_escape / minimal_escape ----
+impl<'a> BytesCData<'a> {
+//@extract events::BytesCData::decode | src/events/mod.rs :: impl<'a> BytesCData<'a> :: fn decode | serves=C09,C10
+ pub(crate) fn decode(&self) -> (r: Result<Cow<'a, str>, EncodingError>)
+        ensures match spec_decode::<'a>(self.decoder, self.content@) {
+            Ok(d) => r matches Ok(c) && c@ == d@,
+            Err(_) => r is Err,
+        }
+ {
+        Ok(self.decoder.decode_cow(&self.content)?)
+    }
+//@end
+//@extract events::BytesCData::escape | src/events/mod.rs :: impl<'a> BytesCData<'a> :: fn escape | serves=C09,C10
+ pub fn escape(self) -> (r: Result<BytesText<'a>, EncodingError>)
+        // C09 / C10: the text event holds the DECODED content of the section, escaped with this function's table -- so it unescapes
+        // to that content again (theorem of C10) -- ; an error iff the bytes do not decode
+        ensures match spec_decode::<'a>(self.decoder, self.content@) {
+            Ok(d) => r matches Ok(t) && t.content@ == spec_escape(cow_str_bytes(d), p_full()),
+            Err(_) => r is Err,
+        }
+ {
+        proof { axiom_into_self_cow(); axiom_cow_mut_bytes_ev(); }
+        let decoded = self.decode()?;
+        Ok(BytesText::wrap(
+            match escape(decoded) {
+                Cow::Borrowed(escaped) => Cow::Borrowed(escaped.as_bytes()),
+                Cow::Owned(escaped) => Cow::Owned(escaped.into_bytes()),
+            },
+            Decoder::utf8(),
+        ))
+    }
+//@end
+//@extract events::BytesCData::partial_escape | src/events/mod.rs :: impl<'a> BytesCData<'a> :: fn partial_escape | serves=C09,C10
+ pub fn partial_escape(self) -> (r: Result<BytesText<'a>, EncodingError>)
+        // C09 / C10: the text event holds the DECODED content of the section, escaped with this function's table -- so it unescapes
+        // to that content again (theorem of C10) -- ; an error iff the bytes do not decode
+        ensures match spec_decode::<'a>(self.decoder, self.content@) {
+            Ok(d) => r matches Ok(t) && t.content@ == spec_escape(cow_str_bytes(d), p_partial()),
+            Err(_) => r is Err,
+        }
+ {
+        proof { axiom_into_self_cow(); axiom_cow_mut_bytes_ev(); }
+        let decoded = self.decode()?;
+        Ok(BytesText::wrap(
+            match partial_escape(decoded) {
+                Cow::Borrowed(escaped) => Cow::Borrowed(escaped.as_bytes()),
+                Cow::Owned(escaped) => Cow::Owned(escaped.into_bytes()),
+            },
+            Decoder::utf8(),
+        ))
+    }
+//@end
+//@extract events::BytesCData::minimal_escape | src/events/mod.rs :: impl<'a> BytesCData<'a> :: fn minimal_escape | serves=C09,C10
+ pub fn minimal_escape(self) -> (r: Result<BytesText<'a>, EncodingError>)
+        // C09 / C10: the text event holds the DECODED content of the section, escaped with this function's table -- so it unescapes
+        // to that content again (theorem of C10) -- ; an error iff the bytes do not decode
+        ensures match spec_decode::<'a>(self.decoder, self.content@) {
+            Ok(d) => r matches Ok(t) && t.content@ == spec_escape(cow_str_bytes(d), p_minimal()),
+            Err(_) => r is Err,
+        }
+ {
+        proof { axiom_into_self_cow(); axiom_cow_mut_bytes_ev(); }
+        let decoded = self.decode()?;
+        Ok(BytesText::wrap(
+            match minimal_escape(decoded) {
+                Cow::Borrowed(escaped) => Cow::Borrowed(escaped.as_bytes()),
+                Cow::Owned(escaped) => Cow::Owned(escaped.into_bytes()),
+            },
+            Decoder::utf8(),
+        ))
     }
 //@end
 }
